@@ -190,7 +190,7 @@ Definition normal (c : fmt_config) (s : st) (t : tok) (nk : option kind) : actio
 
 Definition decide (c : fmt_config) (s : st) (t : tok) (nk : option kind) : action :=
   let k := tk t in
-  if dp s then ADrop PClrDp
+  if dp s && kis k KRParen then ADrop PClrDp
   else if kis k KLParen && nk_is nk KRParen
           && (match mode s with MCallName => true | _ => false end
               || match hdr s with Some (1, _) => true | _ => false end)
